@@ -198,6 +198,7 @@ def run_c14_ab(case):
 def gen_c14_ab(rng):
     spec = specmod.gen_spec(rng, 'c14')
     mode = rng.choice(('offset', 'offset', 'repeat', 'split', 'split', 'split'))
+    spec['default_rm'] = rng.random() < 0.5
     case = {'engine': 'lifesim_twin', 'mode': mode, 'spec': spec, 'seed': rng.randrange(2 ** 31)}
     if mode in ('offset', 'repeat'):
         # real seeded weights (shipped behaviour) or the adversary (many exact ties -> asset-id tie-break decides)
@@ -229,9 +230,12 @@ def multi_sim(system, index, mspec, horizon):
                    starting_parts=INF if s['parts'] is None else s['parts'])
             for i, s in enumerate(mspec['sources'])]
     prev = srcs
+    for r, amt in mspec.get('resources', {}).items():
+        system.resource_manager.add_resources(r, amt)
     for j, st in enumerate(mspec['stages']):
         if st['k'] == 'proc':
-            d = PartProcessor(name=None if st.get('default_name') else f'M{j}', upstream=prev, cycle_time=st['ct'])
+            d = PartProcessor(name=None if st.get('default_name') else f'M{j}', upstream=prev, cycle_time=st['ct'],
+                              resources_for_processing=st.get('res'))
             if st.get('rq'):
                 d.add_finish_processing_callback(process_part)
         else:
@@ -393,7 +397,13 @@ def gen_c14_c(rng, real_pool=False):
                            'default_name': rng.random() < 0.3})
         else:
             stages.append({'k': 'buffer', 'cap': rng.choice((1, 2, 5))})
-    mspec = {'seed': rng.randrange(10 ** 6),
+    resources = {}
+    if rng.random() < 0.6:
+        resources = {'tool': rng.choice((1, 1, 2))}
+        for st in stages:
+            if st['k'] == 'proc' and rng.random() < 0.7:
+                st['res'] = {'tool': 1}
+    mspec = {'seed': rng.randrange(10 ** 6), 'resources': resources,
              'sources': [{'ct': rng.choice((0.5, 1, 1, 2)), 'parts': rng.choice((None, 5, 20))}
                          for _ in range(rng.choice((1, 2, 2, 3)))],
              'stages': stages, 'sink_ct': rng.choice((0, 0.25))}
